@@ -317,6 +317,24 @@ func (c *Client) CloseFIN() {
 	c.w.clientFIN(c.conn)
 }
 
+// CloseFull closes the socket while unread data is pending: the peer's writes are reset.
+func (c *Client) CloseFull() {
+	if c.sentFIN || c.reset {
+		return
+	}
+	c.sentFIN = true
+	c.w.sim.Logf("%s >FIN+discard", c.Label)
+	c.w.sim.Stats["fault.client_close_with_unread_data"]++
+	c.w.clientFIN(c.conn)
+	conn := c.conn
+	c.w.sim.After(c.w.latency(), "net>s.rst", func() {
+		conn.outErr = errReset
+		conn.wakeWrite()
+	})
+	c.pending = nil
+	c.reset = true
+}
+
 // Reset aborts the connection: both directions fail, undelivered data is lost.
 func (c *Client) Reset() {
 	if c.reset {
